@@ -165,6 +165,25 @@ pub fn run(ctx: &mut Ctx) {
             }
         }
     }
+    // spelling twins far apart in long collections with type-sensitive expressions
+    for n in al::size_classes(ctx.tier_thorough) {
+        if n > 300 {
+            continue;
+        }
+        if !ctx.mine() {
+            continue;
+        }
+        for (x, y) in al::spelling_twins() {
+            let coll: Vec<Value> = (0..n).map(|i| if i == 0 { x.clone() } else if i == n - 1 { y.clone() } else if i == n / 2 { x.clone() } else { json!("pad") }).collect();
+            let dd = json!({"coll": coll});
+            for e in [json!({"var": ""}), json!({"===": [{"var": ""}, 1]}), json!({"!!": [{"var": ""}]}), json!({"cat": [{"var": ""}]}), json!({"if": [{"var": ""}, "t", "f"]}), json!({"+": [{"var": ""}]})] {
+                ctx.edge();
+                ctx.check("map:size-probe:twins", &op("map", vec![json!({"var": "coll"}), e.clone()]), &dd);
+                ctx.check("filter:size-probe:twins", &op("filter", vec![json!({"var": "coll"}), e.clone()]), &dd);
+            }
+            ctx.check("reduce:size-probe:twins", &json!({"reduce": [{"var": "coll"}, {"merge": [{"var": "accumulator"}, [{"var": "current"}]]}, []]}), &dd);
+        }
+    }
     // numeric folds at representation boundaries: reduce must behave as the left fold of the
     // operator's own (double) arithmetic, map / filter must see the element unchanged
     {
